@@ -5862,6 +5862,10 @@ class PyCdlib:
         self.isohybrid_mbr.new(efi, mac, part_entry, mbr_id, part_offset,
                                geometry_sectors, geometry_heads, part_type)
 
+        # The boot file addresses in the MBR/GPT are filled in during extent
+        # assignment, so the metadata is stale now.
+        self._finish_add(0, 0)
+
     def rm_isohybrid(self):
         # type: () -> None
         """
